@@ -238,18 +238,18 @@ PROPS = {
             "ChiaModel.C11.encoders_agree", "ChiaModel.C11.clvmBytesLen_ok", "ChiaModel.C11.sanitizeUint_ok",
             "ChiaModel.C11.sanitizeUint_complete", "ChiaModel.C11.sanitizeUint_neg", "ChiaModel.C11.sanitizeUint_err",
             "ChiaModel.C11.sanitizeUint_pos", "ChiaModel.C11.encodeNumber_nonneg",
-            "ChiaModel.C11.canon_unique", "ChiaModel.C11.sanitizeUint_canon",
+            "ChiaModel.C11.canon_unique", "ChiaModel.C11.sanitizeUint_canon", "ChiaModel.C11.encodeNumber_neg", "ChiaModel.C11.decodeNumber_value",
         ],
         "gen_theorems": ["ChiaModel.C11.u64ToBytes_canon", "ChiaModel.C11.coinIdAmount_canon", "ChiaModel.C11.clvmBytesLen_ok"],
-        "level_text": "Proof: the three threshold ladders (u64_to_bytes, Coin::coin_id amount, clvm_bytes_len) are regenerated from the Rust source on every run and proved equal to the canonical minimal two's-complement form for every v < 2^64; sanitize_uint is proved to accept exactly the canonical atoms that fit the width and to classify the rest (negative / redundant zero / positive overflow) without truncation; encode_number proved canonical for non-negative inputs. Loop-based codecs are hand models tied to the code by differential correspondence on boundary-exhaustive inputs.",
-        "level_note": "Trusted: Lean kernel + 3 standard axioms; the translator (cross-checked by running Gen definitions against the Rust functions at every threshold ±2); implementation = model only on the cases run for encode_number/decode_number/sanitize_uint; clvmr new_number external. Open (correspondence only): encode_number on negative inputs, decode_number.",
+        "level_text": "Proof: the three threshold ladders (u64_to_bytes, Coin::coin_id amount, clvm_bytes_len) are regenerated from the Rust source on every run and proved equal to the canonical minimal two's-complement form for every v < 2^64; sanitize_uint is proved to accept exactly the canonical atoms that fit the width and to classify the rest (negative / redundant zero / positive overflow) without truncation; encode_number proved value-preserving and minimal for non-negative and for negative inputs; decode_number proved never to truncate (result has the requested width and the atom's signed value). Loop-based codecs are hand models tied to the code by differential correspondence on boundary-exhaustive inputs.",
+        "level_note": "Trusted: Lean kernel + 3 standard axioms; the translator (cross-checked by running Gen definitions against the Rust functions at every threshold ±2); implementation = model only on the cases run for encode_number/decode_number/sanitize_uint; clvmr new_number external.",
         "trivial": r"^(none|bad-op|ok)$",
         "rule": "u64 at every byte-class boundary ±2 and random per bit-length; typed ints at both ends and every power of two of all ten widths; "
                 "all atoms of length ≤ 2 (≤ 3 with boundary lead byte in thorough) and structured atoms up to 20 bytes with leading bytes in {00,01,7f,80,ff}, "
                 "64-byte padding budget runs; each through u64_to_bytes, Coin::coin_id, calculate_generator_length, clvmr new_number, ToClvm/FromClvm, "
                 "encode_number, decode_number<1,2,4,8,16>, sanitize_uint; non-trivial = distinct case whose result is not `none`",
         "trusted": ["clvmr Allocator::new_number (external crate) is compared with canonNat on every u64 case, not verified",
-                    "open statements (not claimed as theorems yet): encode_number for negative inputs, decode_number value/padding — correspondence only"],
+                    "decode_number completeness (every in-range canonical atom is accepted) is covered by correspondence only; the proved direction is: whatever it returns has the requested width and the atom's value"],
     },
     "C01": {
         "extractors": ["ladders", "opcodes", "flags", "constants"],
